@@ -28,7 +28,8 @@ META = {
              'er is not sorted, default options requested by omitting the '
              'argument.'
              " Round 12: slices_to_raw_chunks with explicit lists, two conversions from the same list objects."
-             " Round 18: one directory named for two channels."),
+             " Round 18: one directory named for two channels."
+             " Round 21: the output deleted and the stack converted again into the same path by the same process."),
     "exhaustive_parts": ["all 48 orientation codes (each with its own "
                          "Hypothesis run)"],
     "trusted_base": ["vlib/refs/orient_ref.py (from the letters only)",
@@ -187,8 +188,15 @@ def check_case(ctx, case):
         file_lists = [sorted(Path(p).iterdir()) for p in dirs]
         lists_before = [list(fl) for fl in file_lists]
         # (with explicit lists the same list objects serve two conversions)
-        for dest_name in (("out", "out_again") if use_lists else ("out",)):
+        # (without them, a quarter of the stacks is converted, the output
+        # deleted, and converted again into the same place by this process)
+        for dest_name in (("out", "out_again") if use_lists else
+                          ("out", "out") if case["seed"] % 4 == 1
+                          else ("out",)):
             dest = os.path.join(d, dest_name)
+            if os.path.isdir(dest):
+                ctx.rmtree(dest)
+                ctx.count("converted_again_after_deleting_the_output")
             os.makedirs(dest)
             with open(os.path.join(dest, "info"), "w") as f:
                 json.dump(info, f)
